@@ -185,7 +185,8 @@ class Contract:
                  ensures_all=None, callees=None, loops=None, canary=None, assume=(), receiver=None,
                  covers=None, note='', kwargs=None, as_property=False, bounded=None, l0=(), native_gens=None, searchable=True,
                  clause_props=None, signatures=None, native_setup=None, crash_invariant=None, fs_faults=False,
-                 closure_vars=None, star=None, starstar=None, native_target=None, may_raise=(), constructors=None):
+                 closure_vars=None, star=None, starstar=None, native_target=None, may_raise=(), constructors=None, feas_ms=None):
+        self.feas_ms = feas_ms              # per-contract time limit (ms) of one in-process feasibility query (a timeout keeps the branch)
         self.constructors = constructors or {}  # {class key: callable(ex, classval, args, kwargs) -> value}: constructor taken by contract
         self.may_raise = tuple(may_raise)       # exception classes a path may end with although no ensures_raise clause speaks about it
         self.closure_vars = closure_vars or {}   # {free variable of a nested target function: input name}
